@@ -47,13 +47,15 @@ def gen_args(lyr, ishape):
 
 def main():
   rep = vlib.Report(PROP, "proof")
-  from translate import opcountgen, energygen
+  from translate import opcountgen, energygen, memgen
   gen = opcountgen.emit(vlib.GEN)
   egen = energygen.emit(vlib.GEN)
-  info = vlib.build_obligations(PROP, gen_files=[gen, egen], extra_files=[os.path.join(vlib.COQ, "theories", "Link", "OpCountLink.v"),
-                                                                         os.path.join(vlib.COQ, "theories", "Link", "EnergyLink.v")])
-  errs = rep.obligations(info, "python3 tools/translate/opcountgen.py coq/gen && python3 tools/translate/energygen.py coq/gen && coqc coq/gen/OpCountGen.v coq/gen/EnergyGen.v "
-                         "&& coqc coq/theories/Link/OpCountLink.v coq/theories/Link/EnergyLink.v && coqc coq/theories/Properties/C19.v")
+  mgen = memgen.emit(vlib.GEN)
+  info = vlib.build_obligations(PROP, gen_files=[gen, egen, mgen], extra_files=[os.path.join(vlib.COQ, "theories", "Link", "OpCountLink.v"),
+                                                                               os.path.join(vlib.COQ, "theories", "Link", "EnergyLink.v"),
+                                                                               os.path.join(vlib.COQ, "theories", "Link", "MemLink.v")])
+  errs = rep.obligations(info, "python3 tools/translate/opcountgen.py coq/gen && python3 tools/translate/energygen.py coq/gen && python3 tools/translate/memgen.py coq/gen && coqc coq/gen/OpCountGen.v coq/gen/EnergyGen.v coq/gen/MemGen.v "
+                         "&& coqc coq/theories/Link/OpCountLink.v coq/theories/Link/EnergyLink.v coq/theories/Link/MemLink.v && coqc coq/theories/Properties/C19.v")
   for e in errs:
     rep.violation("obligation-" + os.path.basename(e["file"]), "proof obligation no longer checks: " + e["error"][-400:],
                   {"file": e["file"]}, no_input=True)
@@ -255,6 +257,23 @@ def main():
       for k_ in ("gamma_quantizer", "beta_quantizer", "mean_quantizer", "variance_quantizer"):
         if item_get(k_):
           want_par += ref_mem(nch, item_get(k_).bits, wm, mss, rw, False)
+    # the same three entries through the Coq placement model (QTools/Energy.v mem_read / mem_write and their regenerated twins)
+    def mexp(kind, elems, bits, mode, at_io):
+      total = elems * bits
+      d_, s_ = float(max(cfg.dram_rd(total), 0)), ref_sram(total, mss)
+      return f'{kind} {vlib.blit(at_io)} {vlib.blit(rw)} "{mode}" {qlit(d_)} {qlit(s_)} {qlit(s_)}'
+    e_in = [mexp("mem_read", int(np.prod(sh[1:])), q_.bits, am, is_in) for sh, q_ in zip(ishapes, item_get("input_quantizer_list"))]
+    e_out = [mexp("mem_write", int(np.prod(osh[1:])), item_get("output_quantizer").bits, am, is_out)]
+    e_par = []
+    if weighted:
+      e_par.append(mexp("mem_read", int(np.prod(item_get("w_shapes"))), item_get("weight_quantizer").bits, wm, False))
+      if item_get("bias_quantizer"):
+        e_par.append(mexp("mem_read", int(np.prod(item_get("b_shapes"))), item_get("bias_quantizer").bits, wm, False))
+    elif layer is not None and type(layer).__name__ in ("BatchNormalization", "QBatchNormalization"):
+      e_par += [mexp("mem_read", len(layer.get_weights()[0]), item_get(k_).bits, wm, False)
+                for k_ in ("gamma_quantizer", "beta_quantizer", "mean_quantizer", "variance_quantizer") if item_get(k_)]
+    for key, es in (("inputs", e_in), ("outputs", e_out), ("parameters", e_par)):
+      mem_cases.append((tag, lname, key, float(en[key]), es, [wm, am, mss, rw, is_in, is_out]))
     for key, want in (("inputs", want_in), ("outputs", want_out), ("parameters", want_par)):
       w2 = float("{0:.2f}".format(want))
       if abs(w2 - en[key]) > 1e-6 * max(1.0, abs(w2)) + 0.011:
@@ -262,6 +281,7 @@ def main():
                       f"min_sram_size={mss}, rd_wr_on_io={rw}, input layer={is_in}, output layer={is_out}) gives {w2}", {"options": [wm, am, mss, rw]})
 
   # ---- op_cost of EVERY layer class against the Coq model QTools/Energy.v (and its regenerated twin coq/gen/EnergyGen.v) ----
+  mem_cases = []
   OPKEYS = ["multiplier", "accumulator", "pool_sum_accumulator", "internal_divide_quantizer", "internal_multiplier"]
   opc_cases = []
 
@@ -309,6 +329,25 @@ def main():
                       f"of the reported operator types, count and number of inputs gives {float(want):.4f}", {"class": cls_name, "count": cnt, "inputs": nin})
       ncls[cls_name] = ncls.get(cls_name, 0) + 1
     rep.note(op_cost_entries_vs_model=dict(sorted(ncls.items())))
+    # memory entries: sum of mem_read / mem_write terms, model and regenerated code
+    hdr2 = ("From Coq Require Import ZArith QArith String List Bool.\nFrom QV Require Import QTools.Energy.\nFrom QVGen Require MemGen.\n"
+            "Import ListNotations.\nOpen Scope string_scope.\nOpen Scope Q_scope.\n")
+    sm = lambda es, pre: " + ".join(["0"] + [f"({pre}{e_})" for e_ in es])
+    body2 = hdr2 + "".join(f"Eval vm_compute in (let q := Qred ({sm(es, '')}) in let g := Qred ({sm(es, 'MemGen.gen_')}) in "
+                           f"[Qnum q; Zpos (Qden q); Qnum g; Zpos (Qden g)]).\n" for *_x, es, _o in mem_cases)
+    outs2 = vlib.coq_eval(PROP + "_mem", body2)
+    nm = 0
+    for (tag, lname, key, reported, es, opts), o in zip(mem_cases, outs2):
+      want = Fraction(o[0], o[1])
+      if (o[0], o[1]) != (o[2], o[3]) and not errs:
+        rep.violation(f"mem-translator-mismatch-{key}", f"{tag} {lname}: the regenerated memory functions give {Fraction(o[2], o[3])} but the model QTools/Energy.v {want} for entry '{key}' "
+                      f"(weights, activations, min_sram_size, rd_wr_on_io, input layer, output layer = {opts})", {"options": opts})
+      if abs(Fraction(reported) - want) > Fraction(51, 10000) + abs(want) / 10 ** 6:
+        rep.violation(f"mem-model-{key}-{tag}-{lname}", f"{tag} {lname}: energy entry '{key}' = {reported} but the placement model (QTools/Energy.v) gives {float(want):.4f} for "
+                      f"(weights, activations, min_sram_size, rd_wr_on_io, input layer, output layer) = {opts}", {"options": opts})
+      else:
+        nm += 1
+    rep.note(memory_entries_vs_model=dict(entries=len(mem_cases), agree=nm))
 
   def mk_layer(cls_name, name, input_shape, weights):
     cls = type(cls_name, (object,), {})
